@@ -64,6 +64,7 @@ def inside(b, vals):
     """independent interval membership (not the code's check_arg_in_bounds)"""
     lo, hi, lc, hc = b
     v = np.atleast_1d(np.asarray(vals, dtype=float))
+    v = v[~np.isnan(v)]      # NaN (e.g. TPL variance factor of a negative length scale) is outside the quantifier space
     ok_lo = (v >= lo) if lc else (v > lo)
     ok_hi = (v <= hi) if hc else (v < hi)
     return bool(np.all(ok_lo & ok_hi))
@@ -657,6 +658,10 @@ class History:
         o = self.o
         if not all_inside(o):
             self.ctx.count(None, hist=dict(fresh="skipped: unchecked bounds left a value outside"))
+            return
+        if any(np.isnan(np.asarray(o[f], dtype=float)).any() for f in ("var", "var_raw", "len_scale", "nugget", "anis", "angles", "opts", "rescale")):
+            # == is defined through np.isclose, NaN never equals NaN: outside the quantifier space
+            self.ctx.count(None, hist=dict(fresh="skipped: NaN value"))
             return
         # executable instance of C14_reachable_canonical
         st, val = res_state(self.drv.call("canon", ("n", self.ci), *st_args(self.ms)))
